@@ -20,6 +20,11 @@ CONSTANTS
   FracStarts <- MCFracStarts
   FracShiftLo <- MCFracShiftLo
   FracShiftHi <- MCFracShiftHi
+  FarMants <- MCFarMants
+  FarMaxExp <- MCFarMaxExp
+  FarYears <- MCFarYears
+  FarPins <- MCFarPins
+  FarStarts <- MCFarStarts
 SPECIFICATION Spec
 INVARIANT TypeOK
 INVARIANT SerialClosedForm
@@ -35,10 +40,12 @@ INVARIANT CarryAgrees
 INVARIANT DateHitsCarriedDay
 INVARIANT MonthArgStep
 INVARIANT DateInRange
+INVARIANT CarrySpelling
 INVARIANT ShiftLaws
 INVARIANT ClockLaws
 INVARIANT YearFracSane
 INVARIANT FracLaws
+INVARIANT FarBeyond
 INVARIANT Export
 PROPERTY WeekdayStep
 PROPERTY EoMonthIsMonthEnd
@@ -46,3 +53,4 @@ PROPERTY DayArgLinear
 PROPERTY EoMonthStep
 PROPERTY YearFracSymmetric
 PROPERTY FracStep
+PROPERTY FarLinear
